@@ -12,7 +12,7 @@ import sys, os, time, itertools
 sys.path.insert(0, os.path.dirname(os.path.abspath(__file__)))
 import engine
 from engine import Case, enc, ShardStats, get_driver
-from model import ACCEPT, INCOMPLETE, CFGF, Opt, Schema
+from model import ACCEPT, INCOMPLETE, UNSPEC, CFGF, Opt, Schema
 import schemas as S
 import trace
 
@@ -43,17 +43,54 @@ def deep_workloads(sch):
     secs = [o for o in sch.opts if o.kind == 'sec' and not o.has('K')]
     if not secs:
         return []
-    return [b' '.join(inst(o, 3) for o in secs)]
+    return [b' '.join(inst(o, 3) for o in secs)] + repeated_titles(sch)
+
+
+def repeated_titles(sch):
+    """an instance "created later" may carry a title that was there before: for every titled multi section (at any depth) one text
+    that gives an instance everything (values, appended lists, nested instances) and then the same title again with less"""
+    VAL = {'int': b'42', 'float': b'4.5', 'bool': b'true', 'str': b'changed'}
+
+    def fill(opts):
+        out = []
+        for c in opts:
+            if c.kind in VAL and not c.has('S') and not c.has('D'):
+                out.append(b'%s %s %s' % (c.name, b'+=' if c.is_list else b'=', (b'{' + VAL[c.kind] + b'}') if c.is_list else VAL[c.kind]))
+            elif c.kind == 'sec' and not c.has('K'):
+                if c.has('T'):
+                    out.append(b'%s n1 { %s } %s n2 { }' % (c.name, fill(c.sub), c.name))
+                else:
+                    out.append(b'%s { %s }' % (c.name, fill(c.sub)))
+            elif c.kind == 'sec':
+                out.append(b'%s%s { key1 = v }' % (c.name, b' n1' if c.has('T') else b''))
+        return b' '.join(out)
+
+    def appends(opts):
+        return b' '.join(b'%s += {%s}' % (c.name, VAL[c.kind]) for c in opts if c.kind in VAL and c.is_list and not c.has('S') and not c.has('D'))
+
+    texts = []
+
+    def walk(opts, wrap):
+        for o in opts:
+            if o.kind != 'sec' or o.has('K'):
+                continue
+            if o.has('M') and o.has('T') and not o.has('U'):
+                texts.append(wrap(b'%s t0 { %s } %s t1 { } %s t0 { %s }' % (o.name, fill(o.sub), o.name, o.name, appends(o.sub))))
+                texts.append(wrap(b'%s t0 { %s } %s t0 { }' % (o.name, fill(o.sub), o.name)))
+            head = b'%s%s { ' % (o.name, b' w' if o.has('T') else b'')
+            walk(o.sub, lambda inner, wrap=wrap, head=head: wrap(head + inner + b' }'))
+    walk(sch.opts, lambda t: t)
+    return texts
 
 
 def pair(sid, flags, text, pre=()):
     sch = FAM[sid]
-    alive = Case(['schema DF ' + sch.spec(), 'init A DF %d' % flags] + list(pre) + ['parse_buf A ' + enc(text), 'dump A 7', 'print A', 'free A'])
-    gone = Case(['schema DF ' + sch.spec(), 'init A DF %d' % flags, 'declfree DF'] + list(pre) + ['parse_buf A ' + enc(text), 'dump A 7', 'print A', 'free A'])
+    alive = Case(['schema DF ' + sch.spec(), 'init A DF %d' % flags] + list(pre) + ['parse_buf A ' + enc(text), 'dump A 0', 'dump A 7', 'print A', 'free A'])
+    gone = Case(['schema DF ' + sch.spec(), 'init A DF %d' % flags, 'declfree DF'] + list(pre) + ['parse_buf A ' + enc(text), 'dump A 0', 'dump A 7', 'print A', 'free A'])
     return alive, gone
 
 
-def judge_pair(st, sid, alive, gone, ra, rg, label):
+def judge_pair(st, sid, alive, gone, ra, rg, label, exp0=None):
     st.evaluations += 2
     st.transitions += 2
     st.validated += 1
@@ -68,6 +105,11 @@ def judge_pair(st, sid, alive, gone, ra, rg, label):
     st.nontriv('\n'.join(og))
     if oa != og:
         st.violation('differs-once-declarations-are-gone:%s' % label, script, '\n'.join(oa)[:1500], '\n'.join(og)[:1500])
+        return
+    if exp0 is not None and (rg.first('r parse_buf') != 'r parse_buf 0' or rg.first('dump ') != exp0):
+        # every instance, whenever and under whatever title it is created, holds the declared sub-options and defaults plus what
+        # its own body says (reference: the parser model)
+        st.violation('instance-not-built-from-the-declarations:%s' % label, script, exp0, (rg.first('r parse_buf') or '') + ' ' + (rg.first('dump ') or ''))
         return
     for r, c in ((ra, alive), (rg, gone)):
         hyg = r.first('hyg ') or ''
@@ -93,15 +135,25 @@ def shard_a(sh):
             for node in trace.e1(sch, 0, alpha, N, prefix):
                 if node.verdict in (ACCEPT, INCOMPLETE) and node.words:
                     texts.append(trace.text_of(node.words).encode('latin-1'))
+    import reftext
+    from model import dump_sec
     for ch in engine.chunks(texts, 100):
-        cases = []
+        cases, exps = [], []
         for t in ch:
             for flags in (0, CFGF['COMMENTS'] | CFGF['NOCASE']):
                 a, g = pair(sid, flags, t)
                 cases += [a, g]
+                exp0 = None
+                if N == 0:
+                    m = reftext.meaning(sch, flags, t)
+                    if m.verdict == ACCEPT:
+                        exp0 = 'dump ' + dump_sec(m.store, 0)
+                    elif m.verdict != UNSPEC:
+                        raise RuntimeError('machinery: workload %r of %s is %s for the model (%s)' % (t, sid, m.verdict, m.why))
+                exps.append(exp0)
         res = drv.run(cases)
         for k in range(0, len(cases), 2):
-            judge_pair(st, sid, cases[k], cases[k + 1], res[k], res[k + 1], 'deep' if N == 0 else 'E1')
+            judge_pair(st, sid, cases[k], cases[k + 1], res[k], res[k + 1], 'deep' if N == 0 else 'E1', exps[k // 2])
         if time.time() > deadline:
             st.complete = False
             break
